@@ -23,11 +23,14 @@ def sh(cmd, **kw):
 
 def main():
     args = [a for a in sys.argv[1:] if not a.startswith("--")]
+    offset = next((int(a.split("=")[1]) for a in sys.argv[1:] if a.startswith("--offset=")), 0)   # second round: m1 -> m4 ...
     pid = args[0]
     dirs = [Path(a) for a in args[1:]] or sorted(Path(f"/tmp/seed/{pid}/seeded_out").glob("m*"))
     tier = "quick"
     for d in dirs:
         name = f"{pid}-{d.name}" if not d.name.startswith(pid) else d.name
+        if offset and not d.name.startswith(pid):
+            name = f"{pid}-m{int(d.name[1:]) + offset}"
         dest = VERIF / "seeded" / name
         if d.resolve() != dest.resolve():
             dest.mkdir(parents=True, exist_ok=True)
